@@ -3,6 +3,7 @@ package main
 import (
 	"fmt"
 	"html"
+	"math"
 	"reflect"
 	"strings"
 	"time"
@@ -87,6 +88,9 @@ func sameItem(a, b interface{}) bool {
 		return false
 	}
 	if ta.Comparable() {
+		if a != a { // NaN and the like: not equal to itself
+			return b != b
+		}
 		return a == b
 	}
 	if !reflect.DeepEqual(a, b) {
@@ -305,6 +309,22 @@ func runC01(x *X) {
 		{"int64", func() interface{} { return int64(-7) }, pv, nil},
 		{"uint8", func() interface{} { return uint8(65) }, pv, nil},
 		{"float64", func() interface{} { return 1.5 }, pv, nil},
+		{"float64 +0", func() interface{} { return 0.0 }, pv, nil},
+		{"float64 -0", func() interface{} { return math.Copysign(0, -1) }, pv, []string{"signed_zero"}},
+		{"float32 +0", func() interface{} { return float32(0) }, pv, nil},
+		{"float32 -0", func() interface{} { return float32(math.Copysign(0, -1)) }, pv, []string{"signed_zero"}},
+		{"NaN", func() interface{} { return math.NaN() }, pv, nil},
+		{"+Inf", func() interface{} { return math.Inf(1) }, pv, nil},
+		{"MaxInt64", func() interface{} { return int64(math.MaxInt64) }, pv, nil},
+		{"MinInt64", func() interface{} { return int64(math.MinInt64) }, pv, nil},
+		{"MaxUint64", func() interface{} { return uint64(math.MaxUint64) }, pv, nil},
+		{"int 0 again", func() interface{} { return 0 }, pv, nil},
+		{"uint 0", func() interface{} { return uint(0) }, pv, nil},
+		{"complex", func() interface{} { return complex(1, -2) }, pv, nil},
+		{"1e21", func() interface{} { return 1e21 }, pv, nil},
+		{"0.1+0.2", func() interface{} { return 0.1 + 0.2 }, pv, nil},
+		{"long string 300", func() interface{} { return strings.Repeat("x", 300) }, sp(strings.Repeat("x", 300)), nil},
+		{"string of 40 lines", func() interface{} { return strings.Repeat("l\n", 40) }, sp(strings.Repeat("l\n", 40)), nil},
 		{"bool", func() interface{} { return true }, pv, nil},
 		{"[]int", func() interface{} { return []int{1, 2} }, pv, nil},
 		{"[]string{}", func() interface{} { return []string{} }, pv, nil},
@@ -320,6 +340,9 @@ func runC01(x *X) {
 	plain = append(plain, base...)
 	for _, b := range base {
 		b := b
+		if b.name == "NaN" {
+			continue // reflect.DeepEqual cannot confirm the identity of a struct holding NaN
+		}
 		plain = append(plain, plainItem{"Cell(" + b.name + ")", func() interface{} { return tabular.NewCell(b.mk()) }, func(interface{}) string { return b.want(b.mk()) }, append([]string{"nested_cell"}, b.tags...)})
 		plain = append(plain, plainItem{"Cell(Cell(" + b.name + "))", func() interface{} { return tabular.NewCell(tabular.NewCell(b.mk())) }, func(interface{}) string { return b.want(b.mk()) }, append([]string{"nested_cell"}, b.tags...)})
 		plain = append(plain, plainItem{"*Cell(" + b.name + ")", func() interface{} { c := tabular.NewCell(b.mk()); return &c }, func(interface{}) string { return b.want(b.mk()) }, append([]string{"nested_cell", "pointer_to_cell"}, b.tags...)})
